@@ -16,6 +16,13 @@ pub(super) struct State {
     last_send_access: Option<Access>,
     /// Last access that was a receive operation.
     last_recv_access: Option<Access>,
+    /// Last `try_recv`. Unlike a blocking `recv`, it observes whether the
+    /// channel is empty, which makes it dependent with the sends.
+    last_try_recv_access: Option<Access>,
+
+    /// The receiver is gone: a send hands the message back to the sender, it
+    /// is neither queued nor leaked.
+    receiver_dropped: bool,
 
     /// A synchronization point for synchronizing the sending threads and the
     /// channel.
@@ -47,6 +54,8 @@ pub(super) enum Action {
     MsgSend,
     /// Receive a message
     MsgRecv,
+    /// Receive a message if there is one
+    MsgTryRecv,
 }
 
 impl Channel {
@@ -56,6 +65,8 @@ impl Channel {
                 msg_cnt: 0,
                 last_send_access: None,
                 last_recv_access: None,
+                last_try_recv_access: None,
+                receiver_dropped: false,
                 sender_synchronize: Synchronize::new(),
                 receiver_synchronize: VecDeque::new(),
                 created: location,
@@ -70,6 +81,12 @@ impl Channel {
         self.state.branch_action(Action::MsgSend, location);
         super::execution(|execution| {
             let state = self.state.get_mut(&mut execution.objects);
+
+            if state.receiver_dropped {
+                // The underlying channel returns the message to the sender.
+                return;
+            }
+
             state.msg_cnt = state.msg_cnt.checked_add(1).expect("overflow");
 
             state
@@ -103,6 +120,30 @@ impl Channel {
     pub(crate) fn recv(&self, location: Location) {
         self.state
             .branch_disable(Action::MsgRecv, self.is_empty(), location);
+        self.take_message();
+    }
+
+    /// Receives a message if one is queued once the thread is scheduled
+    /// again. Returns `false` if the channel is empty at that point.
+    pub(crate) fn try_recv(&self, location: Location) -> bool {
+        self.state.branch_action(Action::MsgTryRecv, location);
+
+        if self.is_empty() {
+            return false;
+        }
+
+        self.take_message();
+        true
+    }
+
+    /// The receiver was dropped (after draining the channel).
+    pub(crate) fn close(&self) {
+        super::execution(|execution| {
+            self.get_state(&mut execution.objects).receiver_dropped = true;
+        })
+    }
+
+    fn take_message(&self) {
         super::execution(|execution| {
             let state = self.state.get_mut(&mut execution.objects);
             let thread_id = execution.threads.active_id();
@@ -162,10 +203,46 @@ impl State {
         }
     }
 
-    pub(super) fn last_dependent_access(&self, action: Action) -> Option<&Access> {
-        match action {
-            Action::MsgSend => self.last_send_access.as_ref(),
-            Action::MsgRecv => self.last_recv_access.as_ref(),
+    fn dependent_accesses(&self, action: Action) -> impl Iterator<Item = &Access> {
+        let (a, b) = match action {
+            Action::MsgSend => (&self.last_send_access, &self.last_try_recv_access),
+            Action::MsgRecv => (&self.last_recv_access, &None),
+            Action::MsgTryRecv => (&self.last_recv_access, &self.last_send_access),
+        };
+
+        a.iter().chain(b.iter())
+    }
+
+    /// Returns the most recent access that `action`, performed by a thread
+    /// whose DPOR clock is `version`, is dependent with and that did not happen
+    /// before it (or any dependent access if all of them happened before).
+    pub(super) fn last_dependent_access(
+        &self,
+        action: Action,
+        version: &VersionVec,
+    ) -> Option<&Access> {
+        let mut ret: Option<&Access> = None;
+        let mut any: Option<&Access> = None;
+
+        for access in self.dependent_accesses(action) {
+            any = Some(access);
+
+            if access.happens_before(version) {
+                continue;
+            }
+
+            if ret.map_or(true, |ret| ret.path_id() < access.path_id()) {
+                ret = Some(access);
+            }
+        }
+
+        ret.or(any)
+    }
+
+    /// Joins the DPOR clocks of all accesses `action` is dependent with.
+    pub(super) fn join_dependent_accesses(&self, action: Action, version: &mut VersionVec) {
+        for access in self.dependent_accesses(action) {
+            version.join(access.version());
         }
     }
 
@@ -173,6 +250,10 @@ impl State {
         match action {
             Action::MsgSend => Access::set_or_create(&mut self.last_send_access, path_id, version),
             Action::MsgRecv => Access::set_or_create(&mut self.last_recv_access, path_id, version),
+            Action::MsgTryRecv => {
+                Access::set_or_create(&mut self.last_recv_access, path_id, version);
+                Access::set_or_create(&mut self.last_try_recv_access, path_id, version);
+            }
         }
     }
 }
